@@ -433,4 +433,27 @@ theorem doCreateComponent_sem (d : DCC) (hc : dccConsistent d) :
                 exact ⟨rfl, rfl⟩
 
 
+
+/-- the result of doCreateComponent without the call trace -/
+def createResult (d : DCC) : Option Nat :=
+  if !d.populateOk then none else
+  match d.initRes with
+  | none => none
+  | some w =>
+    if w ≠ 0 ∧ !d.proxyOk then none else
+    if !(d.singleton && d.allow && d.inCrOf d.n) then some w else
+    match d.earlyRes with
+    | none => none
+    | some none => some w
+    | some (some e) =>
+      if w = 0 then some e
+      else if ((d.depsEarly ++ d.depsRaw).filter (fun x => !(d.inCrOf x))).isEmpty then some w
+      else none
+
+theorem createDecision_fst (d : DCC) : (createDecision d).1 = createResult d := by
+  unfold createDecision createResult
+  simp only []
+  repeat' split
+  all_goals simp_all
+
 end Ioc.Sem
